@@ -12,12 +12,12 @@ import os
 from vlib import core
 
 TYPES = ["sphere", "box", "rbox", "line", "rcone", "rcyl", "plane", "tr", "union", "inter", "sub"]
-REQUIRED = TYPES + ["in", "out", "surf", "euclid", "pairs", "setops", "mixed", "translate"]
+REQUIRED = TYPES + ["in", "out", "surf", "euclid", "pairs", "setops", "mixed", "translate", "scaled", "tiny", "huge"]
 GEN_INVARIANTS = ["Adm", "Convex", "RefAgrees", "ConeLaws", "BoxLaws", "CylLaws", "TranslateLaw", "SetLaws", "Emit"]
 
 PARAMS = {
-    "quick": dict(level=1, random_n=60, far=24),
-    "thorough": dict(level=2, random_n=6000, far=32),
+    "quick": dict(level=1, random_n=60, far=24, nexp=1, fine=3),
+    "thorough": dict(level=2, random_n=6000, far=32, nexp=2, fine=5),
 }
 
 
@@ -27,8 +27,8 @@ def collect_cases(ctx, vh):
     d = ctx.scratch("gen")
     cfg = os.path.join(ctx.scratch("gen-cfg"), "gen.cfg")
     with open(cfg, "w") as f:
-        f.write("CONSTANTS\n  Level = %d\nSPECIFICATION Spec\nINVARIANTS %s\nCHECK_DEADLOCK FALSE\n" %
-                (P["level"], " ".join(GEN_INVARIANTS)))
+        f.write("CONSTANTS\n  Level = %d\n  Seed = %d\n  NExp = %d\n  Fine = %d\nSPECIFICATION Spec\nINVARIANTS %s\n"
+                "CHECK_DEADLOCK FALSE\n" % (P["level"], ctx.seed, P["nexp"], P["fine"], " ".join(GEN_INVARIANTS)))
     r = core.run_tlc(d, "SdfGen", "gen.cfg", files=[(cfg, "gen.cfg")], workers=min(core.NCPU, 6),
                      timeout=3000, heap="4g")
     if r.rc != 0:
@@ -41,6 +41,13 @@ def collect_cases(ctx, vh):
     for c in gen:
         c["tag"] = "enum"
     notes["enumerated_cases"] = len(gen)
+    by_e2, types_at = {}, {}
+    for c in gen:
+        by_e2[c["e2"]] = by_e2.get(c["e2"], 0) + 1
+        types_at.setdefault(c["e2"], set()).add(c["shape"]["t"])
+    notes["enumerated_cases_by_binary_exponent"] = {str(k): by_e2[k] for k in sorted(by_e2)}
+    if len(by_e2) < 10 or set(TYPES) - types_at.get(-40, set()) or set(TYPES) - types_at.get(40, set()):
+        raise core.Infra("vacuous: binary magnitudes %s; every shape type must occur at 2^-40 and 2^40" % sorted(by_e2))
     notes["generator_level"] = P["level"]
     rp = os.path.join(ctx.scratch("rnd"), "cases.ndjson")
     core.run_vh(vh, ["sdf-random", "-out", rp, "-seed", str(ctx.seed), "-n", str(P["random_n"])])
@@ -161,11 +168,13 @@ def run_family(ctx, prefix="C19"):
     ctx.extra["scale_q_histogram_sampled"] = qs
     ctx.rule = ("cases: every shape parameter tuple enumerated by TLC from SdfGen (level %d) x denominators, plus "
                 "seeded random shapes (nested translations/combinators); each sampled on its 7x7x7 lattice in 27 "
-                "overlapping 3x3x3 blocks + seeded far points; a case is distinct by (shape, den), non-trivial if its "
+                "overlapping 3x3x3 blocks + seeded far points; every enumerated shape with den = 1 again at the binary "
+                "magnitudes 2^-40 and 2^40 and at rotated magnitudes in between (5x5x5 / 3x3x3 lattices + far points), "
+                "every other random shape at a binary magnitude; a case is distinct by (shape, den, e2), non-trivial if its "
                 "samples include inside and outside points" % notes["generator_level"])
-    ctx.nontrivial = len({json.dumps([c["shape"], c["den"]], sort_keys=True) for c in cases})
+    ctx.nontrivial = len({json.dumps([c["shape"], c["den"], c.get("e2", 0)], sort_keys=True) for c in cases})
     for c in cases[:1] + cases[-1:]:
-        ctx.sample({"den": c["den"], "shape": c["shape"], "tag": c.get("tag")})
+        ctx.sample({"den": c["den"], "e2": c.get("e2", 0), "shape": c["shape"], "tag": c.get("tag")})
     if ctx.tier == "thorough":
         self_test(ctx, raw)
     per_sig = {}
@@ -175,17 +184,18 @@ def run_family(ctx, prefix="C19"):
         if not f["pred"].startswith(prefix + "."):
             continue
         case = cases[f["id"]]
-        sig = "%s/%s" % (f["pred"], discriminator(case["shape"]))
+        sig = "%s/%s%s" % (f["pred"], discriminator(case["shape"]), "/scaled" if case.get("e2", 0) else "")
         per_sig[sig] = per_sig.get(sig, 0) + 1
         if per_sig[sig] > 2:
             continue
-        what = "%s rejected block %d (q=%d) of den=%d shape %s" % (
-            f["pred"], f["blk"], f["q"], case["den"], json.dumps(case["shape"])[:300])
-        ctx.violation(sig, what, {"family": "sdf", "case": {k: case[k] for k in ("k", "den", "shape", "lat")},
+        what = "%s rejected block %d (q=%d) of den=%d e2=%d shape %s" % (
+            f["pred"], f["blk"], f["q"], case["den"], case.get("e2", 0), json.dumps(case["shape"])[:300])
+        ctx.violation(sig, what, {"family": "sdf", "case": {k: case.get(k, 0) for k in ("k", "den", "e2", "shape", "lat")},
                                   "seed": ctx.seed, "far": PARAMS[ctx.tier]["far"], "id": f["id"]})
     ctx.extra["rejections_by_signature"] = per_sig
     ctx.assumptions += [
-        "values are judged at precision 1/q of a lattice unit (q <= 512, chosen per line for the int32 budget)",
+        "values are judged at precision 1/q of a lattice unit (q <= 512, chosen per line for the int32 budget); one "
+        "lattice unit is 2^e2 / den (e2 in -40..40), the judgement is made on the integers and is the same at every e2",
         "shape semantics: rounded box = box grown by the roundness; rounded cylinder as Quilez defines it (radius "
         "2*ra, rounding rb, half height h + rb); plane normals are unit vectors n/|n| with integer |n|",
         "subtraction is judged as the open set A minus closure(B) (on the cutter's surface the result is not negative)",
@@ -207,7 +217,8 @@ def replay_family(ctx, path, prefix="C19"):
             continue
         print("replay: %s rejected block %d" % (f["pred"], f["blk"]))
         if f["pred"].startswith(prefix + "."):
-            ctx.violation("%s/%s" % (f["pred"], discriminator(c["case"]["shape"])), "replayed", c)
+            ctx.violation("%s/%s%s" % (f["pred"], discriminator(c["case"]["shape"]),
+                                       "/scaled" if c["case"].get("e2", 0) else ""), "replayed", c)
     ctx.rule = "replay of one recorded case"
     ctx.nontrivial = 1
     ctx.sample({"replayed": path})
